@@ -5,7 +5,8 @@
      JsonEventTraceIngest._initialize_data (list or {"traceEvents","distributedInfo","otherData"}),
        get_next_event, sane_event, build_complete_event, __next__               -> [init_file], [sane], [fnext]
      MultifileIngest.__iter__ (prefill), __next__ (pop / refill / disable / silent drop of an event
-       whose file is disabled), update_event_front (append + stable descending sort),
+       whose file is disabled), update_event_front (append + stable descending sort,
+       key ts / -inf when absent),
        disable_ingest                                              -> [refill], [prefill], [step], [run], [multi]
    Specification-level definitions used by the theorems (not executed by the tie): [fstream_o] (whole
    per-file stream), tokens / [expected] / [first_rank] (well-formed files of the property's domain).
@@ -20,6 +21,8 @@
      * a trailing B without E ends the file silently (StopIteration inside build_complete_event);
      * zero test is math.isclose(dur, 0.0, abs_tol=1e-9), i.e. dur <= double(1e-9) once dur >= 0;
        it is applied to every event that is neither B/E nor exactly "M";
+     * the sort key of the event front is ts, or -inf for an event without ts (metadata): such an event
+       is emitted as soon as it heads its file, before every timed event of the front;
      * ties in the event front: list.sort is stable also with reverse=True, the refill is appended
        last, pop() takes the last element -> among equal keys the most recently refilled goes first;
      * an exception of a per-file iterator aborts the iteration (the popped event is lost).
@@ -178,9 +181,17 @@ Definition fnext_st (s : fstate) : nres * fstate :=
 
 (* ---------------------------------------------------------------- MultifileIngest *)
 Definition item : Type := (ev * nat)%type.          (* event and index of the ingester it came from *)
-Definition key (e : ev) : Q := match e_ts e with Some t => t | None => 0%Q end.
-(* order of event_front after sort(reverse=True, key=ts or 0.0) *)
-Definition leb_desc (a b : item) : bool := Qle_bool (key (fst b)) (key (fst a)).
+(* the sort key of update_event_front: event["ts"] if present, else -math.inf.  An absent ts is the
+   least key (None below every Some t), not a number. *)
+Definition key (e : ev) : option Q := e_ts e.
+Definition key_leb (a b : option Q) : bool :=
+  match a, b with
+  | None, _ => true                       (* -inf <= anything *)
+  | Some _, None => false
+  | Some x, Some y => Qle_bool x y
+  end.
+(* order of event_front after sort(reverse=True, key=ts or -inf) *)
+Definition leb_desc (a b : item) : bool := key_leb (key (fst b)) (key (fst a)).
 (* update_event_front: append, then stable sort *)
 Definition push_front (x : item) (front : list item) : list item := isort leb_desc (front ++ [x]).
 (* list.pop(): the LAST element *)
@@ -324,6 +335,13 @@ Definition fstream_st (s : fstate) : list ev * fend * fstate :=
 Definition file_events (s : fstate) : list ev := fst (fst (fstream_st s)).
 Definition file_end (s : fstate) : fend := snd (fst (fstream_st s)).
 Definition file_final (s : fstate) : fstate := snd (fstream_st s).
+
+(* the ts values of the events that have one, in order (what "ordered by ts" speaks about) *)
+Fixpoint timed (l : list ev) : list Q :=
+  match l with
+  | [] => []
+  | e :: r => match e_ts e with Some t => t :: timed r | None => timed r end
+  end.
 
 (* well-formed files of the property's domain as token lists: X slice, adjacent B/E pair, metadata
    (M; also the other annotated pass-through events: instant i, async b/e without dur), other
